@@ -190,8 +190,8 @@ def classifyStdio (j : Json) : Option MsgType :=
 inductive ToolOutcome
   | result (r : CallToolResult)
   | goErr (msg : Text)
-  /-- a result `json.Marshal` refuses (a channel / NaN inside structured content or `_meta`) -/
-  | unencodable
+  /-- a result `json.Marshal` refuses (a channel / NaN inside structured content or `_meta`), with the encoder's error text -/
+  | unencodable (why : Text)
 
 /-- a registered tool: descriptor + what its handler does with `CallToolParams.Arguments` (`none`: nil map) -/
 structure ToolEntry where
@@ -201,7 +201,7 @@ structure ToolEntry where
 inductive PromptOutcome
   | result (r : GetPromptResult)
   | goErr (msg : Text)
-  | unencodable
+  | unencodable (why : Text)
 
 structure PromptArg where
   name : Text
@@ -245,7 +245,8 @@ def findResource (rs : List ResEntry) (u : Text) : Option ResEntry := rs.find? (
 inductive Ans
   | result (r : Json)
   | error (code : Int) (msg : Text)
-  | unencodable
+  /-- a result value `json.Marshal` refuses; `why` is the encoder's error text -/
+  | unencodable (why : Text)
 
 /-- the JSON-RPC error code of an answer -/
 def Ans.code? : Ans → Option Int
@@ -291,9 +292,10 @@ def toolArguments (m : Obj) : Except Ans (Option Obj) :=
 /-- calling the tool handler and wrapping what it returns -/
 def runTool (tool : ToolEntry) (a : Option Obj) : Ans :=
   match tool.run a with
-  | .result r => .result (encodeResult r)
+  -- a nil Content slice is replaced by an empty one
+  | .result r => .result (encodeResult { r with content := some (r.content.getD []) })
   | .goErr msg => .error codeInternal (serverErrorMessage (.tool tool.desc.name) msg)
-  | .unencodable => .unencodable
+  | .unencodable why => .unencodable why
 
 /-- manager_tools.go `handleCallTool` -/
 def handleCallTool (reg : Registry) (req : Req) : Ans :=
@@ -322,9 +324,10 @@ def stringArgs : Obj → List (Text × Text)
 
 def runPrompt (p : PromptEntry) (args : List (Text × Text)) : Ans :=
   match p.run args with
-  | .result r => .result (encodeGetPrompt r)
+  -- a nil Messages slice is replaced by an empty one
+  | .result r => .result (encodeGetPrompt { r with messages := some (r.messages.getD []) })
   | .goErr msg => .error codeInternal msg
-  | .unencodable => .unencodable
+  | .unencodable why => .unencodable why
 
 /-- manager_prompt.go `parseGetPromptParams` + `handleGetPrompt` (prompts registered with a handler) -/
 def handleGetPrompt (reg : Registry) (req : Req) : Ans :=
@@ -340,7 +343,8 @@ def handleGetPrompt (reg : Registry) (req : Req) : Ans :=
 
 def runResource (r : ResEntry) (a : Option Obj) : Ans :=
   match r.run a with
-  | .contents cs => .result (encodeReadResource cs)
+  -- a nil contents slice is replaced by an empty one
+  | .contents cs => .result (encodeReadResource (some (cs.getD [])))
   | .goErr msg => .error codeInternal msg
 
 /-- manager_resource.go `handleReadResource` -/
@@ -532,16 +536,16 @@ def jsonrpcField : Text × Json := (t!"jsonrpc", .str version20)
 def okMsg (id : Option Json) (r : Json) : Json :=
   .obj [jsonrpcField, (t!"id", id.getD .null), (t!"result", r)]
 
-/-- `JSONRPCError{JSONRPC, ID omitempty, Error{Code, Message, Data omitempty}}` -/
+/-- `JSONRPCError{JSONRPC, ID, Error{Code, Message, Data omitempty}}` (a nil id is written as `null`) -/
 def errMsg (id : Option Json) (code : Int) (msg : Text) : Json :=
-  .obj ([jsonrpcField] ++ (match id with | some i => [(t!"id", i)] | none => [])
-    ++ [(t!"error", .obj [(t!"code", .int code), (t!"message", .str msg)])])
+  .obj [jsonrpcField, (t!"id", id.getD .null), (t!"error", .obj [(t!"code", .int code), (t!"message", .str msg)])]
 
-/-- the message an answer becomes (`none`: `json.Marshal` fails) -/
+/-- The message an answer becomes (jsonrpc.go `marshalJSONRPCMessage`): a result the encoder refuses becomes an internal
+    error for the same id that carries the encoder's text. Always `some` (the `Option` is kept for the callers' shape). -/
 def ansMsg (id : Option Json) : Ans → Option Json
   | .result r => some (okMsg id r)
   | .error c m => some (errMsg id c m)
-  | .unencodable => none
+  | .unencodable why => some (errMsg id codeInternal why)
 
 /-! ## reactions -/
 
@@ -617,8 +621,8 @@ def resolve (c : Mcp.Session.Cfg) (st : St) (isInit : Bool) (r : Ref) : Except N
 def requestKind (method : Text) (a : Ans) : Mcp.Session.Kind :=
   if method = t!"initialize" then
     match a with
-    | .error _ _ => .initBad
-    | _ => .initOk
+    | .result _ => .initOk
+    | _ => .initBad
   else .request
 
 def notifKind (method : Text) : Mcp.Session.Kind :=
@@ -660,9 +664,7 @@ def servePost (c : SCfg) (reg : Registry) (st : St) (ref : Ref) (j : Json) : St 
 open Mcp.Session in
 /-- streamable_server.go `ServeHTTP` -/
 def serveStreamable (c : SCfg) (reg : Registry) (st : St) (i : HttpIn) : St × Reaction :=
-  if !i.pathOk then
-    -- `if h.serverPath == "" { 404 }` — with a path configured nothing is written: net/http answers 200 with no body
-    (st, if c.pathSet then .http 200 else .http 404)
+  if !i.pathOk then (st, .http 404)
   else
     match i.verb with
     | .post =>
@@ -729,10 +731,10 @@ def serveSSE (reg : Registry) (i : SseIn) : Reaction :=
 /-- stdio_server.go `processMessage` for one (trimmed, non-empty) line -/
 def serveStdio (reg : Registry) (b : Body) : Reaction :=
   match b with
-  | .parseFail => .nothing
+  | .parseFail => .resp ⟨none, none, [errMsg none codeParse t!"Parse error"]⟩
   | .json j =>
     match classifyStdio j with
-    | none => .nothing
+    | none => .resp ⟨none, none, [errMsg none codeInvalidRequest t!"Invalid Request"]⟩
     | some .request =>
       match decodeRequest j with
       | none => .resp ⟨none, none, [errMsg none codeParse t!"Parse error"]⟩
@@ -748,6 +750,7 @@ def serveStdio (reg : Registry) (b : Body) : Reaction :=
     functions above use in the corresponding branches -/
 def modelledErrorCodes : List (Text × Int) :=
   [(t!"mcpHandler.dispatchRequest", codeMethodNotFound),
+   (t!"marshalJSONRPCMessage", codeInternal), (t!"marshalJSONRPCMessage", codeInternal),
    (t!"lifecycleManager.checkInitializeParams", codeInvalidParams), (t!"lifecycleManager.checkInitializeParams", codeInvalidParams),
    (t!"lifecycleManager.checkInitializeParams", codeInvalidParams),
    (t!"parseGetPromptParams", codeInvalidParams), (t!"parseGetPromptParams", codeInvalidParams),
@@ -765,6 +768,7 @@ def modelledErrorCodes : List (Text × Int) :=
    (t!"toolManager.handleCallTool", codeInvalidParams), (t!"toolManager.handleCallTool", codeInternal),
    (t!"SSEServer.handleMessage", codeParse), (t!"SSEServer.handleMessage", codeParse), (t!"SSEServer.handleMessage", codeInvalidRequest),
    (t!"SSEServer.handleRequestError", codeInternal),
+   (t!"stdioTransport.processMessage", codeParse), (t!"stdioTransport.processMessage", codeInvalidRequest),
    (t!"stdioServerInternal.HandleRequest", codeParse), (t!"stdioServerInternal.HandleRequest", codeMethodNotFound),
    (t!"stdioServerInternal.HandleRequest", codeInternal),
    (t!"httpServerHandler.handlePostRequest", codeInternal), (t!"httpServerHandler.handlePostRequest", codeInternal)]
@@ -800,31 +804,17 @@ def ssePostOf (j : Json) : SseIn := ⟨.post, .message, .live, .json j⟩
 def sessionOk (c : SCfg) (st : Mcp.Session.St) (ref : Mcp.Session.Ref) (method : Text) : Prop :=
   c.sess.mode = .stateful → (∃ s, ref = .sid s ∧ s ∈ st.live) ∨ (ref = .none ∧ method = t!"initialize")
 
-def isEmbedded : Content → Bool
-  | .embedded _ _ => true
-  | _ => false
-
-/-- a tool result with a non-nil content slice and no embedded resource (the two things the encoder gets wrong: D07, and
-    the `embedded_resource` type tag) -/
-def resultConforms (r : CallToolResult) : Prop := ∃ cs, r.content = some cs ∧ ∀ c ∈ cs, isEmbedded c = false
-
 def roleOk (r : Text) : Bool := r == t!"user" || r == t!"assistant"
 
+/-- every message of a prompt result has a valid role and a content (the handler contract read with the MCP schema) -/
 def promptConforms (r : GetPromptResult) : Prop :=
-  ∃ ms, r.messages = some ms ∧ ∀ m ∈ ms, roleOk m.role = true ∧ ∃ c, m.content = some c ∧ isEmbedded c = false
+  ∀ m ∈ r.messages.getD [], roleOk m.role = true ∧ ∃ c, m.content = some c
 
-/-- What C03's partial theorems assume about the registrations: descriptors carry an object schema (as `mcp.NewTool` builds
-    them), handlers return non-nil slices, valid roles, a content for every prompt message, no embedded resources. -/
+/-- What C03's well-formedness theorems assume about the registrations: tool descriptors carry an object schema (as
+    `mcp.NewTool` builds them); prompt handlers return messages with a valid role and a content. -/
 structure Registry.Conforming (reg : Registry) : Prop where
   schema : ∀ t ∈ reg.tools, ∃ s, t.desc.inputSchema = some (.obj s) ∧ lookup s t!"type" = some (.str t!"object")
-  tools : ∀ t ∈ reg.tools, ∀ a r, t.run a = .result r → resultConforms r
   prompts : ∀ p ∈ reg.prompts, ∀ a r, p.run a = .result r → promptConforms r
-  resources : ∀ e ∈ reg.resources, ∀ a cs, e.run a = .contents cs → cs.isSome = true
-
-/-- every integer the request offers as an id (under any spelling of the member name) is one a float64 holds exactly -/
-def idsExact : Option Json → Prop
-  | some (.obj o) => ∀ k i, (k, Json.int i) ∈ o → Mcp.Str.toLower k = t!"id" → i.natAbs ≤ two53
-  | _ => True
 
 /-- `arguments` of tools/call is absent, `null` or an object -/
 def argumentsOk (m : Obj) : Bool :=
@@ -851,18 +841,6 @@ def badParams (reg : Registry) (method : Text) (params : Option Json) : Bool :=
     else if method = t!"resources/read" then (lookupStr? m t!"uri").isNone
     else false
 
-/-- the body carries an envelope the legacy SSE server can read an id or a method from (otherwise its answer is an error
-    object without an id member) -/
-def readableEnvelope : Body → Prop
-  | .parseFail => False
-  | .json j => ∃ b, decodeBase j = some b ∧ (b.id.isSome = true ∨ b.method ≠ [])
-
-/-- a stdio line that is classified as a request decodes into a request with a (non-null) id (otherwise an error answer
-    has no id member) -/
-def stdioAnswerable : Body → Prop
-  | .parseFail => True
-  | .json j => classifyStdio j = some .request → ∃ req id, decodeRequest j = some req ∧ req.id = some id
-
 /-- the JSON value of a body -/
 def Body.json? : Body → Option Json
   | .parseFail => none
@@ -884,6 +862,12 @@ inductive Malformed : Body → Prop
   | unparsable : Malformed .parseFail
   | undecodable (j : Json) : decodeBase j = none → Malformed (.json j)
   | empty (j : Json) (b : Base) : decodeBase j = some b → b.id = none → b.method = [] → Malformed (.json j)
+
+/-- the stdio line is not a JSON-RPC message: not JSON, or a value `parseJSONRPCMessageType` rejects (not an object, a
+    version other than "2.0", neither id nor method, a number no float64 can hold) -/
+inductive MalformedLine : Body → Prop
+  | unparsable : MalformedLine .parseFail
+  | invalid (j : Json) : classifyStdio j = none → MalformedLine (.json j)
 
 /-- a history of HTTP exchanges with one Streamable server -/
 def runStreamable (c : SCfg) (reg : Registry) : Mcp.Session.St → List HttpIn → Mcp.Session.St × List Reaction
